@@ -26,6 +26,7 @@ CONSTRUCTS = collections.OrderedDict([
     ('begin-blocks', lambda d: 'begin ' * d + 'select 1' + ' end' * d),
     ('comments-in-parens', lambda d: 'select ' + '(/* c */' * d + '1' + ')' * d),
     ('array-operators', lambda d: 'select a' + '[1+' * d + '1' + ']' * d),
+    ('join-at-the-bottom', lambda d: 'select (' * d + 'select 1 from t join u on t.x = u.x where a = 1 and b = 2' + ')' * d),
 ])
 OPTS = collections.OrderedDict([
     ('none', {}), ('reindent', {'reindent': True}), ('aligned', {'reindent_aligned': True}),
@@ -33,6 +34,7 @@ OPTS = collections.OrderedDict([
     ('python', {'output_format': 'python', 'reindent': True, 'keyword_case': 'upper'}),
 ])
 ENTRIES = [('parse', 'none'), ('parsestream', 'none'), ('split', 'none')] + [('format', o) for o in OPTS]
+PROBE_REF = [None]          # filled by run(): the C20 probe suite evaluated in a fresh interpreter
 REF_PROBE = [('Keyword.DML', 'select'), ('Text.Whitespace', ' '), ('Literal.Number.Integer', '1'),
              ('Text.Whitespace', ' '), ('Keyword', 'from'), ('Text.Whitespace', ' '), ('Name', 'foo')]
 
@@ -105,14 +107,16 @@ def child_case(case):
                     res['result_ok'] = None if keep.lower() == want.lower() else ['format-lost-text', '']
         except BaseException as e:  # noqa
             res['result_ok'] = ['oracle-raised', repr(e)[:80]]
-    # a later call on ordinary input still works
+    # a later call on ordinary input still works: the whole probe suite of C20 (every entry point, every filter, words
+    # of every keyword table) must give what a fresh interpreter gives
     try:
         from sqlparse import lexer
         got = [(oracles.tname(tt), v) for tt, v in lexer.tokenize('select 1 from foo')]
-        st = sqlparse.parse('select 1 from foo')
-        ok = got == REF_PROBE and len(st) == 1 and st[0].get_type() == 'SELECT' and \
-            sqlparse.format('select 1 from foo', reindent=True) == 'select 1\nfrom foo'
-        res['later'] = None if ok else f'tokens {got!r:.120}'
+        if got != REF_PROBE:
+            res['later'] = f'tokens {got!r:.120}'
+        elif PROBE_REF[0] is not None:
+            from checks import c20
+            res['later'] = c20.probe_diff(PROBE_REF[0])
     except BaseException as e:  # noqa
         res['later'] = f'raised {type(e).__name__}: {e!r:.80}'
     return res
@@ -161,8 +165,11 @@ def measure_hmin(entries, warm):
 def run(tier, seed):
     from sqlparse import lexer
     assert lexer.Lexer._default_instance is None, 'the parent must stay cold'
+    from checks import c20
+    PROBE_REF[0] = c20.reference()
     if tier == 'quick':
-        constructs = ['parens', 'calls', 'case', 'operators-in-parens', 'subqueries', 'call-arguments', 'unclosed-calls']
+        constructs = ['parens', 'calls', 'case', 'operators-in-parens', 'subqueries', 'call-arguments', 'unclosed-calls',
+                      'join-at-the-bottom']
         depths = [12, 45, 130]
         entries = ENTRIES[:3] + [('format', 'none'), ('format', 'reindent'), ('format', 'aligned'), ('format', 'strip')]
         hs_rel = list(range(0, 30)) + list(range(30, 330, 6))
